@@ -6,6 +6,7 @@ package main
 import (
 	"context"
 	"math"
+	"strings"
 	"database/sql"
 	"time"
 
@@ -289,6 +290,9 @@ func genSqlw(r *Rng, id string, mode string) []string {
 			faultKindNext = 0
 			if r.Chance(50) {
 				faultKindNext = r.Range(1, 7)
+			}
+			if strings.HasPrefix(calls[k].text, "CREATE") && r.Chance(40) {
+				faultKindNext = 7 // a failing CREATE whose message says the table is already there
 			}
 			st, cs := runSqlw(sc, k)
 			faultKindNext = 0
